@@ -84,7 +84,8 @@ def family_b():
         body = "<%s, %s> <- split x; wait %s; wait %s; print done; close self" % (b1, b2, b1, b2)
         out.append(("B:split:fun:%s%s" % (b1, b2), PRE + "let twice(x : 1) : 1 = %s\nprc[a] : 1 = y <- new unit(); r <- new twice(y); wait r; print fin; close self\n" % body))
         out.append(("B:split:prc:%s%s" % (b1, b2), PRE + "prc[a] : 1 = x <- new unit(); %s\n" % body))
-        out.append(("B:split:nested:%s%s" % (b1, b2), PRE + "let twice(x : 1) : 1 = <%s, %s> <- split x; <x, x3> <- split %s; wait x; wait x3; wait %s; print done; close self\n"
+        if (b1, b2) != ("x", "x2"):     # that one re-binds x while it is live: rightly rejected
+            out.append(("B:split:nested:%s%s" % (b1, b2), PRE + "let twice(x : 1) : 1 = <%s, %s> <- split x; <x, x3> <- split %s; wait x; wait x3; wait %s; print done; close self\n"
                     "prc[a] : 1 = y <- new unit(); r <- new twice(y); wait r; print fin; close self\n" % (b1, b2, b2, b1)))
     # recv re-binding its subject (payload or continuation)
     for pb, cb in (("u", "c"), ("c", "k"), ("u", "k")):
@@ -100,7 +101,7 @@ def family_b():
     for pb in ("c", "k"):
         body = "case c (val<%s> => wait %s; print left; close self | oth<%s> => wait %s; print right; close self)" % (pb, pb, pb, pb)
         for lab in ("val", "oth"):
-            out.append(("B:case:fun:%s:%s" % (pb, lab), PRE + "let ch() : +{val : 1, oth : 1} = e <- new unit(); self.%s<e>\n"
+            out.append(("B:case:fun:%s:%s" % (lab, pb), PRE + "let ch() : +{val : 1, oth : 1} = e <- new unit(); self.%s<e>\n"
                         "let rd(c : +{val : 1, oth : 1}) : 1 = %s\nprc[a] : 1 = p <- new ch(); r <- new rd(p); wait r; print fin; close self\n" % (lab, body)))
     # cut re-binding its own argument
     out.append(("B:cut:fun", PRE + "let w(a : 1) : 1 = wait a; close self\nlet f(x : 1) : 1 = x <- new w(x); x <- new w(x); wait x; print done; close self\n"
@@ -147,7 +148,7 @@ def family_d():
             tail = ("<p1, p2> <- split p; t1 <- new unit(); t2 <- new unit(); r1 : 1 <- new send p1<t1, self>; r2 : 1 <- new send p2<t2, self>; "
                     "wait r1; print one; wait r2; print two; close self") if act == "split" else "drop p; print dropped; close self"
             srv_local = loc if loc != "x" else "x2"
-            out.append(("D:%s:%s" % (loc, act), PRE + "let srv(x : 1) : 1 -* 1 = %s <- new unit(); <u, w> <- recv self; wait x; wait %s; wait u; print served; close w\n"
+            out.append(("D:%s:%s" % (act, loc), PRE + "let srv(x : 1) : 1 -* 1 = %s <- new unit(); <u, w> <- recv self; wait x; wait %s; wait u; print served; close w\n"
                         "prc[a] : 1 = %s <- new unit(); p <- new srv(%s); %s\n" % (srv_local, srv_local, "y" if loc != "p" else "y", "y" if loc != "p" else "y", tail)))
     # recursion: each unfolding creates a channel under the same binder, all held together and then duplicated
     out.append(("D:rec:split", PRE + "type L = +{nil : 1, cons : 1 * L}\n"
@@ -168,6 +169,18 @@ def programs():
                 seen.add(t)
                 out.append(("shape:" + i, t))
     return out
+
+
+def renaming_groups():
+    """alpha-variants among the shapes: programs of families B and D whose identifiers differ only in their last
+    component are consistent renamings of one another (some re-use a name that is dead or shadowed, one does not).
+    Returned as (group id, base text, [variant text, ...]); print labels are the same in all of them."""
+    groups = {}
+    for i, t in programs():
+        parts = i.split(":")
+        if parts[1] in ("B", "D") and len(parts) >= 4 and parts[1:3] not in (["B", "cut"], ["D", "rec"]):
+            groups.setdefault(":".join(parts[:-1]), []).append(t)
+    return [(g, ts[-1], ts[:-1]) for g, ts in sorted(groups.items()) if len(ts) > 1]
 
 
 if __name__ == "__main__":
